@@ -449,7 +449,8 @@ class JSON(Term):
             return self._get_list_sql(value, **kwargs)
         if isinstance(value, str):
             return self._get_str_sql(value, **kwargs)
-        return str(value)
+        # null / true / false / numbers in JSON notation, not Python's None / True / False
+        return json.dumps(value)
 
     def _get_dict_sql(self, value: dict, **kwargs: Any) -> str:
         pairs = [
@@ -467,10 +468,14 @@ class JSON(Term):
 
     @staticmethod
     def _get_str_sql(value: str, quote_char: str = '"', **kwargs: Any) -> str:
+        if quote_char == '"':
+            # a JSON string: escape '"', backslash and control characters
+            return json.dumps(value, ensure_ascii=False)
         return format_quotes(value, quote_char)
 
     def get_sql(self, ctx: SqlContext) -> str:
-        sql = format_quotes(self._recursive_get_sql(self.value), ctx.secondary_quote_char)
+        # the serialised document is a string value: quote and escape it as one
+        sql = ValueWrapper.get_formatted_value(self._recursive_get_sql(self.value), ctx)
         return format_alias_sql(sql, self.alias, ctx)
 
     def get_json_value(self, key_or_index: str | int) -> "BasicCriterion":
